@@ -19,10 +19,18 @@ Section MixedBags.
   Hypothesis HW : mwf T spec s_ins s_nout win specs.
   (* workflow inputs are closed histories: data, then one termination token *)
   Hypothesis Hwin : forall k, k < length win -> exists d s, nth k win [] = d ++ [E s] /\ term_free_m T d.
-  (* a machine terminates only once it has consumed the termination token of every input *)
-  Hypothesis Hall : forall sp l, done sp l = true -> forall j, j < length (s_ins sp) -> port_closed T j l = true.
-  (* order-insensitivity *)
-  Hypothesis Hins : forall sp l1 l2, done sp l1 = true -> done sp l2 = true ->
+  (* [Good]: any property of the logs that occur in reachable states of THIS network (an invariant of mstep); the two
+     machine hypotheses are asked of such logs only — asked of all logs they are false for real machines (a
+     ScatterStep that met a non-list token, a combinator that raised, terminate before their ports did) *)
+  Variable Good : spec -> log T -> Prop.
+  Hypothesis HGood : forall ch st i sp l,
+    mexec T spec s_ins outs done accept win specs (minit T spec specs) ch = Some st ->
+    nth_error specs i = Some sp -> nth_error st i = Some l -> Good sp l.
+  (* (b) a machine terminates only once it has consumed the termination token of every input *)
+  Hypothesis Hall : forall sp l, Good sp l -> done sp l = true ->
+    forall j, j < length (s_ins sp) -> port_closed T j l = true.
+  (* (c) order-insensitivity *)
+  Hypothesis Hins : forall sp l1 l2, Good sp l1 -> Good sp l2 -> done sp l1 = true -> done sp l2 = true ->
     (forall j, j < length (s_ins sp) -> Permutation (proj T j l1) (proj T j l2)) ->
     forall j, Permutation (nth j (outs sp l1) []) (nth j (outs sp l2) []).
 
@@ -45,12 +53,12 @@ Section MixedBags.
   (* a terminated step has consumed the whole (closed) history of each of its inputs *)
   Lemma consumed_all st i sp l j p d s :
     minv T spec s_ins outs win specs st -> nth_error specs i = Some sp -> nth_error st i = Some l ->
-    nth_error (s_ins sp) j = Some p -> done sp l = true -> cont st p = d ++ [E s] -> term_free_m T d ->
+    nth_error (s_ins sp) j = Some p -> Good sp l -> done sp l = true -> cont st p = d ++ [E s] -> term_free_m T d ->
     proj T j l = cont st p.
   Proof.
-    intros [_ I] Hsp Hl Hp Hd Hc Hf. destruct (I _ _ _ _ _ Hsp Hl Hp) as [I1 _].
+    intros [_ I] Hsp Hl Hp Hg Hd Hc Hf. destruct (I _ _ _ _ _ Hsp Hl Hp) as [I1 _].
     assert (Hj : j < length (s_ins sp)) by (apply nth_error_Some; congruence).
-    pose proof (Hall sp l Hd j Hj) as Hcl. unfold port_closed in Hcl. rewrite I1 in Hcl |- *. rewrite Hc in Hcl |- *.
+    pose proof (Hall sp l Hg Hd j Hj) as Hcl. unfold port_closed in Hcl. rewrite I1 in Hcl |- *. rewrite Hc in Hcl |- *.
     apply firstn_closed; auto.
   Qed.
 
@@ -69,15 +77,15 @@ Section MixedBags.
                 nth_error st2 i = Some l2 -> forall j, Permutation (nth j (outs sp l1) []) (nth j (outs sp l2) [])).
     { induction n as [|n IH]; intros i sp l1 l2 Hi Hsp Hl1 Hl2; [lia|].
       destruct (Nat.eq_dec i n) as [->|Hne]; [|apply (IH i); auto; lia].
-      apply Hins; [eapply D1; eauto|eapply D2; eauto|].
+      apply Hins; [eapply (HGood ch1); eauto|eapply (HGood ch2); eauto|eapply D1; eauto|eapply D2; eauto|].
       intros j Hj. destruct (nth_error (s_ins sp) j) as [p|] eqn:Hp; [|apply nth_error_None in Hp; lia].
       assert (Hin : In p (s_ins sp)) by (eapply nth_error_In; eauto).
       destruct HW as [_ W2]. pose proof (W2 n sp Hsp p Hin) as Hok.
       destruct HC as [_ [_ [C3 _]]].
       destruct p as [k|s jj]; simpl in Hok.
       - destruct (Hwin k Hok) as [d [s0 [Hk Hf]]].
-        rewrite (consumed_all st1 n sp l1 j (WIn k) d s0 I1 Hsp Hl1 Hp (D1 _ _ _ Hsp Hl1) Hk Hf).
-        rewrite (consumed_all st2 n sp l2 j (WIn k) d s0 I2 Hsp Hl2 Hp (D2 _ _ _ Hsp Hl2) Hk Hf).
+        rewrite (consumed_all st1 n sp l1 j (WIn k) d s0 I1 Hsp Hl1 Hp (HGood ch1 _ _ _ _ H1 Hsp Hl1) (D1 _ _ _ Hsp Hl1) Hk Hf).
+        rewrite (consumed_all st2 n sp l2 j (WIn k) d s0 I2 Hsp Hl2 Hp (HGood ch2 _ _ _ _ H2 Hsp Hl2) (D2 _ _ _ Hsp Hl2) Hk Hf).
         apply Permutation_refl.
       - destruct Hok as [Hs [sps [Hsps Hjj]]].
         destruct I1 as [Len1 I1']. destruct I2 as [Len2 I2'].
@@ -90,8 +98,8 @@ Section MixedBags.
           destruct HC as [_ [C2 _]]. apply (C3 sps ls); auto. apply nth_In. rewrite C2. exact Hjj. }
         destruct (Cl st1 ls1 E1 (D1 _ _ _ Hsps E1)) as [d1 [s1 [Hc1 Hf1]]].
         destruct (Cl st2 ls2 E2 (D2 _ _ _ Hsps E2)) as [d2 [s2 [Hc2 Hf2]]].
-        rewrite (consumed_all st1 n sp l1 j (SOut s jj) d1 s1 (conj Len1 I1') Hsp Hl1 Hp (D1 _ _ _ Hsp Hl1) Hc1 Hf1).
-        rewrite (consumed_all st2 n sp l2 j (SOut s jj) d2 s2 (conj Len2 I2') Hsp Hl2 Hp (D2 _ _ _ Hsp Hl2) Hc2 Hf2).
+        rewrite (consumed_all st1 n sp l1 j (SOut s jj) d1 s1 (conj Len1 I1') Hsp Hl1 Hp (HGood ch1 _ _ _ _ H1 Hsp Hl1) (D1 _ _ _ Hsp Hl1) Hc1 Hf1).
+        rewrite (consumed_all st2 n sp l2 j (SOut s jj) d2 s2 (conj Len2 I2') Hsp Hl2 Hp (HGood ch2 _ _ _ _ H2 Hsp Hl2) (D2 _ _ _ Hsp Hl2) Hc2 Hf2).
         simpl. rewrite Hsps, E1, E2. exact Hperm. }
     intros p Hp. destruct p as [k|s j]; simpl; [apply Permutation_refl|].
     destruct (nth_error specs s) as [sp|] eqn:Hsp; [|apply Permutation_refl].
